@@ -5,4 +5,4 @@ CHECK_DEADLOCK FALSE
 CONSTANTS
   Budget = 2
   Big = FALSE
-  Types = {"SA", "SN", "CG", "GS", "GSN", "SNM", "TISB", "PIB", "AI2", "OVI", "VOI", "MSI", "MIB", "XSD", "XBVCS", "PB", "VTIB", "MSSA"}
+  Types = {"SA", "SN", "CG", "GS", "GSN", "SNM", "TISB", "PIB", "AI2", "OVI", "VOI", "MSI", "MIB", "XSD", "XBVCS", "PB", "VTIB", "MSSA", "TCN", "TGS", "TNUM"}
